@@ -132,6 +132,11 @@ func genC07Case(rt *rapid.T) *c07Case {
 
 	// recipient
 	cs.toClass = rapid.SampledFrom(c07ToClasses).Draw(rt, "toClass")
+	cs.payload = rapid.SampledFrom(c07Payloads).Draw(rt, "payload")
+	hookNeedsFunds := cs.payload == "ok-send" || cs.payload == "ok-multi" || cs.payload == "self-withdraw" || cs.payload == "fail-k" || cs.payload == "gas-hog" || cs.payload == "multi-signer"
+	if hookNeedsFunds && rapid.IntRange(0, 9).Draw(rt, "fundedHook") < 7 {
+		cs.toClass = "user" // the usual shape: the recipient signs a hook that spends what was just deposited
+	}
 	hrp := sdk.GetConfig().GetBech32AccountAddrPrefix()
 	var to string
 	cs.signer = tc.users[rapid.IntRange(0, 3).Draw(rt, "signer")]
@@ -180,10 +185,12 @@ func genC07Case(rt *rapid.T) *c07Case {
 	}
 	amtS := rapid.SampledFrom([]string{"0", "1", "1000", "1000", "250000", "9223372036854775808", "18446744073709551615"}).Draw(rt, "amount")
 	amt, _ := math.NewIntFromString(amtS)
+	if hookNeedsFunds && cs.toClass == "user" && amt.IsZero() {
+		amt = math.NewInt(1000)
+	}
 	sender := tc.users[0]
 
 	// payload
-	cs.payload = rapid.SampledFrom(c07Payloads).Draw(rt, "payload")
 	l2denom := tcL2Denom(tc, "uinit")
 	num, seq := accInfo(l2, cs.signer)
 	other := tc.users[4]
